@@ -499,6 +499,8 @@ M("C02", "fchk-nuclear-charges-from-atnums", F + "fchk.py", r"_dump_real_arrays\
 M("C02", "fchk-spin-density-under-total-label", F + "fchk.py", r"            title = \"Spin SCF Density\"", "            title = \"Total SCF Density\"", "C02-R29")
 T("C02", "fchk-charges-written-from-an-ordered-table", F + "fchk.py", r"    if \"mulliken\" in data\.atcharges:\n        _dump_real_arrays\(\"Mulliken Charges\", data\.atcharges\[\"mulliken\"\], f\)\n    if \"esp\" in data\.atcharges:\n        _dump_real_arrays\(\"ESP Charges\", data\.atcharges\[\"esp\"\], f\)\n", "    for key_, label_ in ((\"mulliken\", \"Mulliken Charges\"), (\"esp\", \"ESP Charges\")):\n        if key_ in data.atcharges:\n            _dump_real_arrays(label_, data.atcharges[key_], f)\n")
 
+T("C13", "gro-frame-parser-shared-by-load-one-and-load-many", F + "gromacs.py", r"def load_one\(lit: LineIterator\) -> dict:\n    \"\"\"Do not edit this docstring\. It will be overwritten\.\"\"\"\n    data = _helper_read_frame\(lit\)", "def load_one(lit: LineIterator) -> dict:\n    \"\"\"Do not edit this docstring. It will be overwritten.\"\"\"\n    return _load_frame(lit)\n\n\ndef _load_frame(lit: LineIterator) -> dict:\n    \"\"\"Read one frame.\"\"\"\n    data = _helper_read_frame(lit)", also=[(r"        yield load_one\(lit\)", "        yield _load_frame(lit)")])
+
 
 def _run_one(args):
     spec, repo = args
